@@ -22,6 +22,7 @@ Per assigned attribute the first failing clause of that cascade is reported.
 
 from __future__ import annotations
 
+import copy
 import enum
 import functools
 import io
@@ -453,6 +454,82 @@ def _collect_sometimes():
         world.full_collect()
 
 
+def edit_in_place(v, attr=None) -> bool:  # noqa: C901  pylint: disable=too-many-return-statements,too-many-branches
+    """Change the object a getter handed out, in place; False when it cannot be edited that way."""
+    if isinstance(v, dict):
+        if isinstance(v.get("EM Dataset"), dict):
+            v["EM Dataset"]["Note"] = "edited in place"
+        else:
+            v["edited in place"] = 7
+        return True
+    if isinstance(v, list):
+        if v and all(isinstance(x, float) for x in v):
+            v[0] = v[0] + 0.5
+            return True
+        if all(isinstance(x, dict) for x in v):
+            v.append({"Author": "e", "Date": "2024-03-03T00:00:00", "Text": "in place"})
+            return True
+        return False
+    if not isinstance(v, np.ndarray) or v.size == 0 or not v.flags.writeable:
+        return False
+    if v.dtype.names:
+        done = False
+        for field in v.dtype.names:
+            kind = v.dtype[field].kind
+            if kind == "f":
+                v[field] += 1.5
+                done = True
+            elif kind in "iu" and v.ndim >= 1 and v.size > 1:
+                v[field][:] = v[field][::-1].copy()
+                done = True
+        return done
+    kind = v.dtype.kind
+    if kind == "f":
+        if attr in ("layers", "prisms") and v.ndim == 2:
+            v[:, 2] += 1.5  # the elevation column; the other columns hold integer indices / counts
+        else:
+            v += 1.5
+        return True
+    if kind in "iu":
+        if v.size < 2:
+            return False
+        v[:] = v[::-1].copy()
+        return True
+    if kind == "b":
+        v[:] = ~v
+        return True
+    if kind == "U":
+        v.flat[0] = "e"
+        return True
+    return False
+
+
+def _twin_read(data, handle, cls, tname, memo, attr):
+    counter = world.uid_counter()
+    ws = _workspace()(io.BytesIO(data), mode="r")
+    try:
+        ent = None if handle is None else fixtures.find(ws, handle)
+        target = resolve(ws, ent, cls, tname, dict(memo))
+        vals = copy.deepcopy(domains.values_for(target, attr))
+        before = read(target, attr)
+    finally:
+        ws.close()
+        world._STATE["n"] = counter  # pylint: disable=protected-access  (the twin must not shift the uid stream)
+    return vals, before
+
+
+@functools.lru_cache(maxsize=None)
+def _twin_domain(cls, tname, attr):
+    """(domain values, canonical current value) of one attribute of the STORED fixture, read on a
+    separate read-only opening so that the entity under test is not touched before its setter."""
+    data, handle, _ = _stored_fixture(cls)
+    return _twin_read(data, handle, cls, tname, {}, attr)
+
+
+def _twin_once(data, ent, cls, tname, memo, attr):
+    return _twin_read(data, None if ent is None else _Handle(ent), cls, tname, memo, attr)
+
+
 def execute(history) -> dict:
     """Run one history on the real library; returns raw observations (no judgement)."""
     world.reset("asc")
@@ -477,13 +554,36 @@ def execute(history) -> dict:
     obs["storage"] = storage_tag(target)
     obs["phase"] = "assign"
     ops = history["ops"]
+    cold_bytes = None  # bytes of the file the target was (re-)loaded from and not read since: assignments are COLD
+    if history.get("pre"):
+        cold_bytes = "stored"
     for k, (attr, vi) in enumerate(ops):
-        vals = domains.values_for(target, attr)
-        if vi >= len(vals):
-            obs["steps"].append({"attr": attr, "vi": vi, "status": "no-such-value"})
-            continue
-        value = vals[vi]
-        before = read(target, attr)
+        if vi == "e":
+            # ordinary user pattern: read through the getter, edit the returned object in place, assign it back
+            try:
+                value = getattr(target, attr)
+            except Exception as err:  # pylint: disable=broad-except
+                obs["steps"].append({"attr": attr, "vi": vi, "status": "not-editable", "error": type(err).__name__})
+                continue
+            before = canon(value)
+            if not edit_in_place(value, attr):
+                obs["steps"].append({"attr": attr, "vi": vi, "status": "not-editable"})
+                continue
+        else:
+            tname_cls = type(target).__name__
+            touched_before = cold_bytes == "stored" and any(_field(a, tname_cls) == _field(attr, tname_cls) for a, _ in ops[:k])
+            if cold_bytes is not None and attr != "entity_type" and not touched_before:
+                # neither the domain nor the 'before' record may read the target: both come from a
+                # separate read-only opening of the same bytes, the first touch of the target is the setter
+                vals, before = _twin_domain(cls, tname, attr) if cold_bytes == "stored" else _twin_once(cold_bytes, ent, cls, tname, memo, attr)
+                vals = copy.deepcopy(vals)
+            else:
+                vals = domains.values_for(target, attr)
+                before = read(target, attr)
+            if vi >= len(vals):
+                obs["steps"].append({"attr": attr, "vi": vi, "status": "no-such-value"})
+                continue
+            value = vals[vi]
         step = {"attr": attr, "vi": vi, "defining": defining_class(target, attr), "is_none": value is None, "before": before,
                 "field_defining": defining_class(target, _field(attr, type(target).__name__))}
         try:
@@ -498,6 +598,7 @@ def execute(history) -> dict:
         if history.get("mid") and k == 0 and len(ops) > 1:
             try:
                 ws, ent = _reopen_rw(ws, ent)
+                cold_bytes = ws.h5file.getvalue()
                 target = resolve(ws, ent, cls, tname, memo)
             except Exception as err:  # pylint: disable=broad-except
                 obs["fatal_after_assign"] = f"mid re-open: {type(err).__name__}: {str(err)[:200]}"
@@ -710,7 +811,11 @@ def describe(item) -> dict:
     for attr in domains.settable_attributes(target):
         vals = domains.values_for(target, attr)
         numeric = all(v is None or (isinstance(v, (int, float, np.integer, np.floating)) and not isinstance(v, (bool, np.bool_))) for v in vals)
-        out["attrs"].append([attr, len(vals), defining_class(target, attr), numeric])
+        try:
+            editable = isinstance(getattr(target, attr), (np.ndarray, dict, list))
+        except Exception:  # pylint: disable=broad-except
+            editable = False
+        out["attrs"].append([attr, len(vals), defining_class(target, attr), numeric, [i for i, v in enumerate(vals) if v is None], editable])
     out["observed"] = observable(target)
     ws.close()
     _collect_sometimes()
